@@ -41,6 +41,12 @@ pub static C17: Scenario = Scenario {
 };
 
 fn tc(r: &mut Rng, i: u64) -> i128 {
+    if i % 11 == 10 {
+        // the days around New Year, where week-based and calendar years (and years themselves) change
+        let (y, m, d) = *r.pick(&[(2024, 12, 29), (2024, 12, 30), (2024, 12, 31), (2025, 12, 29), (2025, 12, 31), (2026, 1, 1), (2027, 1, 1), (2027, 1, 3), (2028, 1, 2), (2032, 12, 27), (2033, 1, 2), (2020, 12, 31), (2021, 1, 3)]);
+        let (h, mi) = *r.pick(&[(0u32, 0u32), (0, 30), (12, 0), (22, 59), (23, 0), (23, 30), (23, 59)]);
+        return civil::ns_from_ymd_hms(y, m, d, h, mi, r.below(60) as u32, if r.chance(1, 2) { 0 } else { r.below(1_000_000_000) as u32 });
+    }
     match i % 9 {
         0 => civil::ns_from_ymd_hms(2024, 5, 5, 12, 0, 0, 0),
         1 => civil::ns_from_ymd_hms(2024, 5, 5, 12, 0, 0, 1),
